@@ -93,25 +93,25 @@ def case_strategy(kinds, unknown: bool):
             order = perm[:cut]
             free = [i for i in range(-1, 7) if i not in occ]
             order.insert(draw(st.integers(0, len(order))), draw(st.sampled_from(free)))
-        elif mode == 0 or not occ:
+        elif mode == 9 or not occ:
             order = "none"
         elif mode <= 4:
             order = perm
         else:
             order = perm[: draw(st.integers(0, len(perm) - 1))]
         labels = None
-        if draw(st.integers(0, 9)) >= 3:
-            full = draw(st.integers(0, 2)) == 0
+        if draw(st.integers(0, 9)) < 7:
+            full = draw(st.integers(0, 2)) == 2
             chosen = [c for c in occ if full or draw(st.booleans())]
             suffix = draw(st.sampled_from(["", "a", "b"]))
             labels = {str(c): f"L{c}{suffix}" for c in chosen}
             if draw(st.integers(0, 5)) == 0:
                 labels[str(draw(st.sampled_from([i for i in range(-1, 9) if i not in occ])))] = "Xout"
         outer = None
-        if draw(st.integers(0, 9)) >= 3:
+        if draw(st.integers(0, 9)) < 7:
             outer = [draw(st.sampled_from(pos)) for _ in range(4)]
-        return {"program": program, "order": order, "labels": labels, "compact": draw(st.integers(0, 3)) > 0,
-                "outer": outer, "unroll": draw(st.booleans()), "observe_first": draw(st.booleans())}
+        return {"program": program, "order": order, "labels": labels, "compact": draw(st.integers(0, 3)) < 3,
+                "outer": outer, "unroll": draw(st.integers(0, 1)) == 0, "observe_first": draw(st.integers(0, 1)) == 0}
     return case()
 
 
@@ -583,7 +583,7 @@ def body_unknown(case, ctx):
 
 def parts():
     return [
-        Part("drawable", body, strategy=strat_drawable, quick=330, thorough=1000),
-        Part("any_kind", body, strategy=strat_any_kind, quick=90, thorough=300),
-        Part("unknown_channel", body_unknown, strategy=strat_unknown, quick=120, thorough=300),
+        Part("drawable", body, strategy=strat_drawable, quick=600, thorough=1500),
+        Part("any_kind", body, strategy=strat_any_kind, quick=150, thorough=400),
+        Part("unknown_channel", body_unknown, strategy=strat_unknown, quick=150, thorough=300),
     ]
